@@ -25,7 +25,7 @@ ASSUMPTIONS = [
     "Bitstamp nonces: all nonces of a run pairwise distinct, 36 lower-case characters",
     "the two encoders act per character, so single characters and pairs exhaust their behaviour classes",
 ]
-BOUNDS = {"quick": dict(pairs=False), "thorough": dict(pairs=True)}
+BOUNDS = {"quick": dict(pairs=True), "thorough": dict(pairs=True)}
 EXPLANATION = ("bounded exhaustive input enumeration through the real clients and a real HTTP stack on loopback; every case is "
                "an implementation run")
 PRINTABLE = [c for c in string.printable[:95]]
